@@ -70,6 +70,10 @@ def run_model(lines: list[str], timeout: float = 900.0) -> list[str]:
         r = subprocess.run([str(DRIVER)], input=data, capture_output=True, text=True,
                            timeout=max(timeout, len(data) / 5000.0))      # large batches get proportionally longer
     except subprocess.TimeoutExpired:
+        try:        # keep the batch for diagnosis (outside /verif; nothing reads it back)
+            open(f"/tmp/driver_timeout_{os.getpid()}_{len(lines)}.txt", "w").write(data)
+        except OSError:
+            pass
         raise Infra(f"model driver did not answer {len(lines)} requests within {max(timeout, len(data) / 5000.0):.0f}s")
     out = r.stdout.split("\n")
     if out and out[-1] == "":
